@@ -385,9 +385,15 @@ def barrier_unsupported_error_finishes_only_for_the_barriers_xid(b):
   })
 
 
-@unit(P, target=OF + "HandshakeOpenFlowHandlers.handle_PORT_STATUS")
-def early_port_status_is_deferred_in_arrival_order(b):
-  nexus, con, other, third, dpid, halt, cs, h, feats, msgs = handshake_env(b, "absent", 2)
+def _mk_early(n_before):
+  @unit(P, target=OF + "HandshakeOpenFlowHandlers.handle_PORT_STATUS", name="early_port_status_is_deferred_in_arrival_order_%d_before" % n_before)
+  def u(b):
+    return _early(b, n_before)
+  u.bound = "0..2 port-status messages deferred before this one"
+
+
+def _early(b, n_before):
+  nexus, con, other, third, dpid, halt, cs, h, feats, msgs = handshake_env(b, "absent", n_before)
   after_features = b.bool("features_reply_seen")
   if b.mode == "sym":
     from pyvc.values import Union
@@ -401,10 +407,15 @@ def early_port_status_is_deferred_in_arrival_order(b):
     h.handle_PORT_STATUS(con, msg)
     return con._deferred_port_status
   return Case(run, [h, con, msg], calls=cs, raises={}, ensures={
-    "appended_last_once_features_are_known": lambda res: (len(res) == 3 and res[0] is msgs[0] and res[1] is msgs[1] and res[2] is msg)
-                                            if after_features else res is None,
+    "appended_last_once_features_are_known":
+      lambda res: (len(res) == n_before + 1 and all([res[i] is msgs[i] for i in range(n_before)]) and res[n_before] is msg)
+                  if after_features else res is None,
     "nothing_is_raised_yet": lambda res: len(log(b)) == 0,
   })
+
+
+for _n in (0, 1, 2):
+  _mk_early(_n)
 
 
 class Arbiter(object):
